@@ -49,7 +49,7 @@ theorem skipWs_spec (l : List Char) (off : Nat) (lp : List Nat) :
   case case3 => exact ⟨['\n'], by simp [recNl, isBlank]⟩
   case case4 => exact ⟨['\r'], by simp [recNl, isBlank]⟩
   case case5 c off lp h1 h2 h3 =>
-    refine ⟨[], by simp [recNl], by simp, by simp, by simp [recNl], ?_⟩
+    refine ⟨[], by simp, by simp, by simp, by simp [recNl], ?_⟩
     intro d r hd; simp only [List.cons.injEq] at hd; rw [← hd.1]
     simp only [isBlank]; simp_all
   case case6 c c2 r2 off lp h ih =>
@@ -84,7 +84,7 @@ theorem skipWs_spec (l : List Char) (off : Nat) (lp : List Nat) :
     · subst hd; simp [isBlank]
     · exact h2 d hd
   case case10 c c2 r2 off lp h1 h2 h3 =>
-    refine ⟨[], by simp [recNl], by simp, by simp, by simp [recNl], ?_⟩
+    refine ⟨[], by simp, by simp, by simp, by simp [recNl], ?_⟩
     intro d r hd; simp only [List.cons.injEq] at hd; rw [← hd.1]
     simp only [isBlank]; simp_all
 
